@@ -3832,6 +3832,7 @@ let create p s h n0 k content hi =
               else if N.ltb p.p_wtmax (lenN content)
                    then (s, (RStatus ERR))
                    else (match hi with
+                         | HNone -> (s, (RStatus OK))
                          | HHandle hh ->
                            (match parse_handle hh with
                             | Some p1 ->
@@ -3877,7 +3878,7 @@ let create p s h n0 k content hi =
                                    s.unstable_opt }, (RHandle (hh,
                                    (attrs_of i o))))
                             | None -> (s, (RStatus ERR)))
-                         | _ -> (s, (RStatus ERR)))
+                         | HNoSpace -> (s, (RStatus ERR)))
   | None -> (s, (RStatus STALE))
 
 (** val unlink : afs -> inum -> obj -> name -> inum -> afs **)
@@ -4070,8 +4071,11 @@ let do_write p s h off cnt st d hi =
                          | HNoSpace -> (s, (RStatus ERR))
                          | _ ->
                            let o' =
-                             with_content o (N.max o.o_size (N.add off cnt))
-                               (write_bytes o.o_data off d)
+                             if N.eqb cnt N0
+                             then o
+                             else with_content o
+                                    (N.max o.o_size (N.add off cnt))
+                                    (write_bytes o.o_data off d)
                            in
                            let committed =
                              if s.unstable_opt then st else FileSync
@@ -5124,3 +5128,29 @@ let cmp_state s r =
         match lookup0 (gmap_lookup n_eq_dec n_countable) (fst p) s.objs with
         | Some o -> obj_agree (fst p) o (snd p)
         | None -> (MExtra (fst p)) :: []) r.r_objs))
+
+(** val need_blocks : call -> n **)
+
+let need_blocks = function
+| CWrite (_, _, cnt, _, _) ->
+  N.add (N.add (N.div cnt bS) (Npos (XO XH))) (Npos (XI XH))
+| CCreate (_, _, _) -> Npos XH
+| CMkdir (_, _) -> Npos (XO XH)
+| CSymlink (_, _, t) ->
+  N.add (N.add (N.div (lenN t) bS) (Npos (XO XH))) (Npos XH)
+| CRename (_, _, _, _) -> Npos XH
+| _ -> N0
+
+(** val needs_inode : call -> bool **)
+
+let needs_inode = function
+| CCreate (_, _, _) -> true
+| CMkdir (_, _) -> true
+| CSymlink (_, _, _) -> true
+| _ -> false
+
+(** val nospace_plausible : call -> n -> n -> bool **)
+
+let nospace_plausible c free_blocks free_inodes =
+  (||) (N.ltb free_blocks (need_blocks c))
+    ((&&) (needs_inode c) (N.eqb free_inodes N0))
